@@ -393,3 +393,115 @@ def object_checks(w: K.World, R, n: int, report):
             if a == b and hash(a) != hash(b):
                 report('equal matchers with different hashes', {'first': i1, 'second': i2}, 'same hash', 'different')
     return count
+
+
+# --------------------------------------------------------------------------------------------------
+# histories in which the FILE SYSTEM changes between calls (added after seeded change C19c: the
+# per-call symlink memo of `_Match` became process-wide).  "The answer depends only on the arguments
+# and the file system": after each mutation every call is compared with the same call made alone in
+# a fresh interpreter on the current state.
+
+FS_CALL = r'''
+import json, os, sys
+sys.path.insert(0, sys.argv[1])
+from wcmatch import glob as G
+spec = json.loads(sys.argv[2])
+os.chdir(spec['cwd'])
+out = []
+for api, names, pat, fl, mode in spec['calls']:
+    kw = {}
+    fd = None
+    if mode == 'root_dir':
+        kw['root_dir'] = spec['root']
+    elif mode == 'dir_fd':
+        fd = os.open(spec['root'], os.O_RDONLY | os.O_DIRECTORY)
+        kw['dir_fd'] = fd
+    try:
+        if api == 'globmatch':
+            out.append([bool(G.globmatch(n, pat, flags=fl, **kw)) for n in names])
+        elif api == 'globfilter':
+            out.append(sorted(G.globfilter(names, pat, flags=fl, **kw)))
+        else:
+            out.append(sorted(G.glob(pat, flags=fl, **kw)))
+    finally:
+        if fd is not None:
+            os.close(fd)
+print(json.dumps(out))
+'''
+
+
+def fs_change_histories(w, report) -> int:
+    """returns the number of (state, call) comparisons"""
+    G = w.G
+    RP = G.REALPATH | G.GLOBSTAR
+    names = ['d/x', 'd/s/x', 'e/x', 'd', 'x']
+    calls = [('globmatch', names, '**/x', RP, 'root_dir'), ('globfilter', names, '**/x', RP, 'root_dir'),
+             ('globmatch', names, 'd/**', RP, 'cwd'), ('globmatch', names, '**/x', RP, 'dir_fd'),
+             ('globmatch', names, '**/s/**', RP | G.MATCHBASE, 'root_dir'), ('glob', [], '**/x', G.GLOBSTAR, 'root_dir'),
+             ('globfilter', names, '*/x', G.REALPATH, 'dir_fd')]
+    top = tempfile.mkdtemp(prefix='k9fs-', dir='/tmp')
+    n = 0
+    old = os.getcwd()
+    try:
+        A, B = os.path.join(top, 'A'), os.path.join(top, 'B')
+        for r in (A, B):
+            os.makedirs(os.path.join(r, 'e', 's'))
+            open(os.path.join(r, 'e', 'x'), 'w').close()
+            open(os.path.join(r, 'e', 's', 'x'), 'w').close()
+        os.makedirs(os.path.join(A, 'd', 's'))                 # A: d is a real directory
+        open(os.path.join(A, 'd', 'x'), 'w').close()
+        open(os.path.join(A, 'd', 's', 'x'), 'w').close()
+        os.symlink('e', os.path.join(B, 'd'))                  # B: d is a link to e
+
+        def mutate_to_link():
+            os.rename(os.path.join(A, 'd'), os.path.join(A, 'd_real'))
+            os.symlink('e', os.path.join(A, 'd'))
+
+        def mutate_to_dir():
+            os.remove(os.path.join(A, 'd'))
+            os.rename(os.path.join(A, 'd_real'), os.path.join(A, 'd'))
+        compiled = {}
+        steps = [('A: d is a directory', A, None), ('B (another root, same relative names): d is a link', B, None),
+                 ('A again', A, None), ('A after d was replaced by a link to e', A, mutate_to_link),
+                 ('B again', B, None), ('A after the link was replaced by the directory again', A, mutate_to_dir)]
+        for label, root, mut in steps:
+            if mut:
+                mut()
+            spec = {'root': root, 'cwd': root, 'calls': calls}
+            r = subprocess.run([common.PY, '-c', FS_CALL, common.REPO, json.dumps(spec)], capture_output=True, text=True, timeout=120)
+            if r.returncode != 0:
+                raise RuntimeError('fresh interpreter failed: ' + r.stderr[-400:])
+            fresh = json.loads(r.stdout.strip().split('\n')[-1])
+            os.chdir(root)
+            for k, (api, nms, pat, fl, mode) in enumerate(calls):
+                kw = {}
+                fd = None
+                if mode == 'root_dir':
+                    kw['root_dir'] = root
+                elif mode == 'dir_fd':
+                    fd = os.open(root, os.O_RDONLY | os.O_DIRECTORY)
+                    kw['dir_fd'] = fd
+                try:
+                    if api == 'globmatch':
+                        got = [bool(G.globmatch(x, pat, flags=fl, **kw)) for x in nms]
+                        m = compiled.setdefault((pat, fl), G.compile(pat, flags=fl))       # a matcher object reused across states
+                        got2 = [bool(m.match(x, **kw)) for x in nms]
+                    elif api == 'globfilter':
+                        got = sorted(G.globfilter(nms, pat, flags=fl, **kw))
+                        got2 = got
+                    else:
+                        got = sorted(G.glob(pat, flags=fl, **kw))
+                        got2 = got
+                finally:
+                    if fd is not None:
+                        os.close(fd)
+                n += 1
+                for g, what in ((got, api), (got2, 'compiled matcher reused')):
+                    if g != fresh[k]:
+                        report(f'{what}: the answer on the current file system differs from the same call alone in a fresh interpreter '
+                               f'(state: {label})', {'api': 'glob.' + api, 'pattern': pat, 'flags': fl, 'names': nms, 'root_mode': mode,
+                                                   'history': [s[0] for s in steps[:steps.index((label, root, mut)) + 1]]}, fresh[k], g)
+        return n
+    finally:
+        os.chdir(old)
+        shutil.rmtree(top, ignore_errors=True)
